@@ -111,7 +111,7 @@ def main(seed, ncases, driver, out):
             except Exception as e:
                 failures.append(dict(desc, kind="view: implementation-raises", error=type(e).__name__ + ": " + str(e)[:100])); continue
             evals += 1; distinct += 1
-            if log: failures.append(dict(desc, kind="view: making the view evaluated elements"))
+            if log: failures.append(dict(desc, kind="view: making the view evaluated elements", correspondence_only=True))
             if isinstance(mv, str):
                 # numpy rejects the finite item: the real code may notice only when the view is used
                 try: v[(0,) * len(v.shape) + (1,) * ninf]; failures.append(dict(desc, kind="view: invalid finite item accepted"))
@@ -188,7 +188,7 @@ def main(seed, ncases, driver, out):
         evaluated = set(int(np.ravel_multi_index(tuple(int(x) for x in idx), dense.shape)) for idx in log)
         if evaluated != selected:
             extra = sorted(evaluated - selected)[:5]; missing = sorted(selected - evaluated)[:5]
-            failures.append(dict(desc, kind="evaluated-set-differs-from-selection", extra=[list(map(int, np.unravel_index(x, dense.shape))) for x in extra],
+            failures.append(dict(desc, kind="evaluated-set-differs-from-selection", correspondence_only=not missing, extra=[list(map(int, np.unravel_index(x, dense.shape))) for x in extra],
                                  missing=[list(map(int, np.unravel_index(x, dense.shape))) for x in missing]))
         n0 = len(log)
         try: s[item]
